@@ -132,7 +132,9 @@ AuditClauses(bk, e) ==
      <<"C03_TimeOrdered", ("clock_was_moved_back" \in DOMAIN e) \/ C03_TimeOrdered(bk)>>,
      <<"C03_Conservation", C03_Conservation(bk)>>,
      <<"C04_State", C04_State(bk)>>,
-     <<"C12_OnGrid", C12_OnGrid(bk)>>,
+     \* (with FollowF3 = TRUE the specification follows the code through off-grid modify requests - known finding F3 - and a
+     \*  failure of C12_OnGrid on the specification's own state is recorded in register 3 instead of ending the validation)
+     <<"C12_OnGrid", FollowF3 \/ C12_OnGrid(bk)>>,
      <<"C12_LevelsAccount", C12_LevelsAccount(bk)>> >>
 
 \* ---- next-state relation -------------------------------------------------
@@ -147,8 +149,9 @@ Reset ==
   /\ l' = l + 1
   /\ bad' = bad
 
-\* (F3, known finding: the code accepts an off-grid modify price and BookImpl models the code; traces
-\* containing such a request stop at the reference mismatch before the implementation clauses.)
+\* (F3, known finding: the code accepts an off-grid modify price and BookImpl models the code; with FollowF3 = FALSE traces
+\* containing such a request stop at the reference mismatch; with FollowF3 = TRUE the reference follows the code, the
+\* first event after which its own state breaks C12_OnGrid is kept in register 3, and everything else goes on being checked.)
 Call ==
   /\ l <= Len(Rec)
   /\ Rec[l].op # "reset"
@@ -173,6 +176,7 @@ Call ==
               i == IF istale THEN "" ELSE FirstFalse(ImplClauses(ib, ni, new, e))
           IN
           /\ b' = new
+          /\ (FollowF3 /\ TLCGet(3) = 0 /\ ~C12_OnGrid(new)) => TLCSet(3, l)
           /\ bad' = IF c # "" THEN "CLAUSE:" \o c ELSE IF a # "" THEN "CLAUSE:" \o a ELSE ""
           /\ istale' = (istale \/ (bad' = "" /\ i # "" /\ TLCSet(2, <<l, i>>)))
           /\ l' = IF bad' = "" THEN l + 1 ELSE l
@@ -182,10 +186,11 @@ TSpec == TInit /\ [][TNext]_tvars
 
 \* ---- acceptance ----------------------------------------------------------
 \* register 1 holds the highest event index reached (run with -workers 1)
-ASSUME TLCSet(1, 0) /\ TLCSet(2, <<0, "">>)
+ASSUME TLCSet(1, 0) /\ TLCSet(2, <<0, "">>) /\ TLCSet(3, 0)
 Track == TLCSet(1, MaxOf(TLCGet(1), l))
 Accepted ==
   /\ (TLCGet(2)[1] = 0 \/ PrintT(<<"IMPL-DIVERGED", ToJson([at |-> TLCGet(2)[1], why |-> TLCGet(2)[2]])>>))
+  /\ (TLCGet(3) = 0 \/ PrintT(<<"SPEC-FLAG", ToJson([flag |-> "F3", at |-> TLCGet(3), clause |-> "C12_OnGrid"])>>))
   /\ IF TLCGet(1) = Len(Rec) + 1
      THEN PrintT(<<"ACCEPTED", Len(Rec)>>)
      ELSE PrintT(<<"REJECTED", TLCGet(1)>>) /\ FALSE
